@@ -133,10 +133,17 @@ class Mpsc:
             self.wake(ws)
             return {"w": ws}
         if k == "k":
+            # close_this_sender, since /repo commit fdb5498e919: wake_receiver like Drop
             t = self.tasks[l[1]]
             t["cur"], t["rest"], t["alive"] = [], [], False
             self.closed_senders += 1
-            return {"w": []}
+            ws = []
+            if self.rx == "open":
+                if self.rw:
+                    ws = [-1]
+                self.rw = False
+            self.wake(ws)
+            return {"w": ws}
         # close / drop of the receiver
         ws = list(reversed(self.sw))
         self.sw, self.rw = [], False
